@@ -147,7 +147,7 @@ pub fn stalled_exit(env: &Env, check: &dyn Check, scn_json: &str, secs: u64) -> 
     let _ = std::fs::create_dir_all(format!("{}/replays", env.out_dir));
     let _ = std::fs::write(&path, scn_json);
     env.say(&format!(
-        "VIOLATION property={} replay={} (watchdog: one run made no progress for {secs}s of real time: the planner spins without touching any seam)",
+        "VIOLATION property={} replay={} (watchdog: one run made no progress for {secs}s of real time or memory grew beyond the limit: the planner spins without touching any seam)",
         check.id(),
         path
     ));
@@ -161,7 +161,7 @@ pub struct Sweep {
 
 /// Runs scenarios 0..n on `workers` threads; results are merged in index order, so the outcome
 /// does not depend on the worker count.
-pub fn sweep(env: &Arc<Env>, check: &Arc<dyn Check>, tier: Tier, n: u64) -> Sweep {
+pub fn sweep(env: &Arc<Env>, check: &Arc<dyn Check>, tier: Tier, lo: u64, n: u64) -> Sweep {
     let t0 = Instant::now();
     let next = Arc::new(AtomicU64::new(0));
     let slots: Arc<Vec<Mutex<Option<(Scenario, Report)>>>> = Arc::new((0..n).map(|_| Mutex::new(None)).collect());
@@ -185,7 +185,7 @@ pub fn sweep(env: &Arc<Env>, check: &Arc<dyn Check>, tier: Tier, n: u64) -> Swee
                         if i >= n {
                             break;
                         }
-                        let scn = check.generate(seed, i, tier);
+                        let scn = check.generate(seed, lo + i, tier);
                         *current[w].lock().unwrap() = (Some(serde_json::to_string(&scn).unwrap()), Instant::now());
                         let t = Instant::now();
                         let mut rep = check.evaluate(&scn);
@@ -199,14 +199,33 @@ pub fn sweep(env: &Arc<Env>, check: &Arc<dyn Check>, tier: Tier, n: u64) -> Swee
         );
     }
     // watchdog: the only place real time is consulted, and only to declare a hang
-    let limit = 120;
+    let limit = 90;
+    let mem_limit: u64 = std::env::var("VERIF_MEM_LIMIT_MB").ok().and_then(|s| s.parse().ok()).unwrap_or(16_000) * 1024 * 1024;
     while done.load(Ordering::SeqCst) < env.workers {
         std::thread::sleep(std::time::Duration::from_millis(50));
+        // a parent-link cycle makes path extraction allocate without bound: resident memory
+        // beyond the limit is attributed to the run that has been going longest
+        let rss = std::fs::read_to_string("/proc/self/statm")
+            .ok()
+            .and_then(|s| s.split_whitespace().nth(1).and_then(|x| x.parse::<u64>().ok()))
+            .map(|pages| pages * 4096)
+            .unwrap_or(0);
+        let mut oldest: Option<(std::time::Duration, String)> = None;
         for c in current.iter() {
             let g = c.lock().unwrap();
             if let (Some(js), t) = (&g.0, g.1) {
                 if t.elapsed().as_secs() > limit {
                     stalled_exit(env, &**check, js, limit);
+                }
+                if oldest.as_ref().is_none_or(|(d, _)| t.elapsed() > *d) {
+                    oldest = Some((t.elapsed(), js.clone()));
+                }
+            }
+        }
+        if rss > mem_limit {
+            if let Some((d, js)) = oldest {
+                if d.as_millis() > 500 {
+                    stalled_exit(env, &**check, &js, d.as_secs());
                 }
             }
         }
@@ -235,8 +254,8 @@ pub fn write_replay(env: &Env, scn: &Scenario, sig: &str, event_hash: u64) -> St
 pub fn run_check(env: &Arc<Env>, check: Arc<dyn Check>, tier: Tier) -> i32 {
     let n = env.runs_override.unwrap_or_else(|| check.default_runs(tier));
     env.say(&format!("[{}] tier={} seed={} runs={} workers={}", check.id(), tier.name(), env.seed, n, env.workers));
-    let sw = sweep(env, &check, tier, n);
     let known = load_known(&env.dir);
+    let t_start = Instant::now();
 
     let mut planner_runs = 0u64;
     let mut sim_ns = 0u128;
@@ -246,70 +265,82 @@ pub fn run_check(env: &Arc<Env>, check: Arc<dyn Check>, tier: Tier) -> i32 {
     let mut shapes: BTreeSet<u64> = BTreeSet::new();
     let mut nontrivial: BTreeSet<u64> = BTreeSet::new();
     let mut transitions = 0u64;
-    let mut by_sig: BTreeMap<String, (usize, u64, String)> = BTreeMap::new(); // sig -> (first index, count, detail)
+    // sig -> (first scenario, property, count, detail)
+    let mut by_sig: BTreeMap<String, (Scenario, &'static str, u64, String)> = BTreeMap::new();
     let mut families: BTreeMap<String, u64> = BTreeMap::new();
-    for (i, (scn, rep)) in sw.reports.iter().enumerate() {
-        planner_runs += rep.runs;
-        sim_ns += rep.sim_ns as u128;
-        transitions += rep.transitions;
-        for (k, v) in &rep.probes {
-            *probes.entry(k).or_insert(0) += v;
+    let mut slow: Vec<(u64, u64, String)> = vec![];
+    let mut samples: Vec<serde_json::Value> = vec![];
+    let sample_at = [0u64, n / 2, n.saturating_sub(1)];
+    let mut digest = crate::prng::Fnv::default();
+    // scenarios are executed in chunks (bounded memory) and merged in run-index order, so
+    // neither the chunking nor the worker count influences any reported number
+    let chunk = 50_000u64;
+    let mut lo = 0u64;
+    while lo < n {
+        let len = chunk.min(n - lo);
+        let sw = sweep(env, &check, tier, lo, len);
+        for (k, (scn, rep)) in sw.reports.iter().enumerate() {
+            let i = lo + k as u64;
+            planner_runs += rep.runs;
+            sim_ns += rep.sim_ns as u128;
+            transitions += rep.transitions;
+            for (k, v) in &rep.probes {
+                *probes.entry(k).or_insert(0) += v;
+            }
+            for (k, v) in &rep.faults {
+                *faults.entry(k.clone()).or_insert(0) += v;
+            }
+            traces.extend(rep.traces.iter().copied());
+            shapes.extend(rep.shapes.iter().copied());
+            let sh = scn.hash();
+            if rep.nontrivial {
+                nontrivial.insert(sh);
+            }
+            *families.entry(format!("{}/{}/{}", scn.family, scn.planner.kind.name(), crate::spaces::kind_name(&scn.space))).or_insert(0) += 1;
+            for v in &rep.violations {
+                let e = by_sig.entry(v.sig.clone()).or_insert_with(|| (scn.clone(), v.property, 0, v.detail.clone()));
+                e.2 += 1;
+            }
+            digest.u64(sh);
+            digest.u64(rep.event_hash);
+            digest.u64(rep.violations.len() as u64);
+            if sample_at.contains(&i) && samples.len() < 3 {
+                samples.push(json!({"scenario": scn, "planner_runs": rep.runs, "nontrivial": rep.nontrivial,
+                                    "violations": rep.violations.iter().map(|x| x.sig.clone()).collect::<Vec<_>>() }));
+            }
+            if rep.wall_us > 50_000 {
+                slow.push((rep.wall_us, i, format!("runs={} {} {} {}", rep.runs, scn.family, scn.planner.kind.name(), crate::gen::space_label(scn))));
+            }
         }
-        for (k, v) in &rep.faults {
-            *faults.entry(k.clone()).or_insert(0) += v;
-        }
-        traces.extend(rep.traces.iter().copied());
-        shapes.extend(rep.shapes.iter().copied());
-        if rep.nontrivial {
-            nontrivial.insert(scn.hash());
-        }
-        *families.entry(format!("{}/{}/{}", scn.family, scn.planner.kind.name(), crate::spaces::kind_name(&scn.space))).or_insert(0) += 1;
-        for v in &rep.violations {
-            let e = by_sig.entry(v.sig.clone()).or_insert((i, 0, v.detail.clone()));
-            e.1 += 1;
-        }
+        lo += len;
     }
-
     if std::env::var("VERIF_PROFILE").is_ok() {
-        let mut t: Vec<(u64, usize)> = sw.reports.iter().enumerate().map(|(i, (_, r))| (r.wall_us, i)).collect();
-        t.sort();
-        t.reverse();
-        for (us, i) in t.iter().take(8) {
-            let (scn, r) = &sw.reports[*i];
-            env.say(&format!("slow: index={i} {us}us runs={} {} {} {}", r.runs, scn.family, scn.planner.kind.name(), crate::gen::space_label(scn)));
+        slow.sort();
+        slow.reverse();
+        for (us, i, what) in slow.iter().take(8) {
+            env.say(&format!("slow: index={i} {us}us {what}"));
         }
     }
     // digest of every scenario's event hash in run-index order: equal digests = the same
     // executions, whatever the worker count (used by `./check selftest`)
-    let run_digest = {
-        let mut h = crate::prng::Fnv::default();
-        for (scn, rep) in &sw.reports {
-            h.u64(scn.hash());
-            h.u64(rep.event_hash);
-            h.u64(rep.violations.len() as u64);
-        }
-        h.0
-    };
+    let run_digest = digest.0;
     let mut exit = 0;
     let mut n_viol = 0u64;
     let mut known_hit = vec![];
     let mut replays = vec![];
-    for (sig, (first, count, detail)) in &by_sig {
-        let prop = sw.reports[*first].1.violations.iter().find(|v| &v.sig == sig).map(|v| v.property).unwrap_or(check.id());
+    for (sig, (scn, prop, count, detail)) in &by_sig {
+        let prop = *prop;
         if let Some(what) = known.lookup(prop, sig) {
             env.say(&format!("KNOWN-FINDING: property={prop} {sig} — {what} ({count} scenarios in this run)"));
             known_hit.push(json!({"signature": sig, "count": count}));
             continue;
         }
         if prop != check.id() {
-            // a violation of another property's clause observed by this check's oracle is
-            // reported by that property's own check; here it is a note
             env.say(&format!("note: {sig} observed {count}x while checking {} (decided by {prop}'s own check)", check.id()));
             continue;
         }
         n_viol += count;
         exit = 1;
-        let (scn, _) = &sw.reports[*first];
         let (min_scn, min_rep) = crate::minimise::minimise(&*check, scn, sig);
         let path = write_replay(env, &min_scn, sig, min_rep.event_hash);
         env.say(&format!("VIOLATION property={} replay={} sig={} count={} :: {}", check.id(), path, sig, count, detail));
@@ -317,22 +348,8 @@ pub fn run_check(env: &Arc<Env>, check: Arc<dyn Check>, tier: Tier) -> i32 {
     }
 
     // evidence
-    let samples: Vec<serde_json::Value> = {
-        let mut v = vec![];
-        let picks = [0usize, sw.reports.len() / 2, sw.reports.len().saturating_sub(1)];
-        for (k, i) in picks.iter().enumerate() {
-            if k > 0 && picks[..k].contains(i) {
-                continue;
-            }
-            if let Some((scn, rep)) = sw.reports.get(*i) {
-                v.push(json!({"scenario": scn, "planner_runs": rep.runs, "nontrivial": rep.nontrivial,
-                              "violations": rep.violations.iter().map(|x| x.sig.clone()).collect::<Vec<_>>() }));
-            }
-        }
-        v
-    };
     let missing: Vec<&str> = check.required_probes().into_iter().filter(|p| probes.get(p).copied().unwrap_or(0) == 0).collect();
-    let wall = sw.wall_s;
+    let wall = t_start.elapsed().as_secs_f64();
     let ev = json!({
         "property_id": check.id(),
         "tier": tier.name(),
@@ -396,8 +413,20 @@ pub fn run_replay(env: &Arc<Env>, check: Arc<dyn Check>, scn: &Scenario, path: &
         let env = env.clone();
         let (prop, path) = (scn.property.clone(), path.to_string());
         std::thread::spawn(move || {
-            std::thread::sleep(std::time::Duration::from_secs(130));
-            env.say(&format!("VIOLATION property={prop} replay={path} (watchdog: the replayed run made no progress for 130s of real time)"));
+            let mem_limit: u64 = std::env::var("VERIF_MEM_LIMIT_MB").ok().and_then(|s| s.parse().ok()).unwrap_or(16_000) * 1024 * 1024;
+            let t0 = Instant::now();
+            while t0.elapsed().as_secs() < 100 {
+                std::thread::sleep(std::time::Duration::from_millis(100));
+                let rss = std::fs::read_to_string("/proc/self/statm")
+                    .ok()
+                    .and_then(|s| s.split_whitespace().nth(1).and_then(|x| x.parse::<u64>().ok()))
+                    .map(|pages| pages * 4096)
+                    .unwrap_or(0);
+                if rss > mem_limit {
+                    break;
+                }
+            }
+            env.say(&format!("VIOLATION property={prop} replay={path} (watchdog: the replayed run made no progress for 100s of real time, or its memory grew beyond the limit)"));
             std::process::exit(1);
         });
     }
